@@ -416,7 +416,11 @@ func c11Build(tier string) *c11Trees {
 }
 
 func init() {
-	decorations := []struct{ name, s string }{{"space", " "}, {"newline", "\n"}, {"tab", "\t"}, {"block-comment", "/* c */"}, {"line-comment", "// c\n"}, {"nothing", ""}}
+	decorations := []struct{ name, s string }{{"space", " "}, {"newline", "\n"}, {"tab", "\t"}, {"block-comment", "/* c */"}, {"line-comment", "// c\n"}, {"nothing", ""},
+		// the text of a comment is not source: brackets, quotes and comment openers inside it mean nothing
+		{"block-comment-brackets", "/* :-) ] { */"}, {"block-comment-open-bracket", "/* ( [ */"}, {"line-comment-brackets", "// (see [1}\n"}, {"block-comment-quote", "/* it's `x */"}, {"block-comment-slashes", "/* // */"}, {"line-comment-crlf", "// c\r\n"}}
+	// a line comment may also end with the source
+	eofDecorations := []struct{ name, s string }{{"line-comment-at-eof", "// c"}, {"empty-line-comment-at-eof", "//"}, {"line-comment-cr-at-eof", "// c\r"}, {"line-comment-brackets-at-eof", " // )"}}
 	core.Register(&core.Check{
 		ID:          "C11",
 		Rule:        "all expression trees with <=3 operator nodes over 22 binary operator tokens (all 13 precedence levels), polarity, invocation, indexer, is/as, function-argument and parenthesised positions (quick; thorough adds all trees with 4 operator nodes over one representative per level); leaves rotate through 14 leaf terms (incl. the out-of-range number 2147483648), trees with <=2 nodes with every rotation; each tree is rendered minimally parenthesised (harness's own precedence table), fully parenthesised, and fully parenthesised including the leaf terms: both compile or both fail, identical AST dumps, identical evaluation on 2 inputs; all trees with <=2 nodes x 6 token-gap decorations applied to all gaps and to each single gap; x 52 trailing tokens; Expression.String(); deep nesting (8 constructs x depth 1..12 / 1..30 with 0, 1, 2, 4 redundant pairs of parentheses around every sub-expression: same acceptance and evaluation); an operand-order table evaluated against hand-written results; non-trivial = distinct (tree, rendering, outcome)",
@@ -499,7 +503,7 @@ func init() {
 						one(off)
 					}
 				}},
-				{Name: "decorations", N: len(tr.small), Note: "trees with <=2 operator nodes x 3 leaf assignments x 6 decorations x (all gaps | each single gap | before the first / after the last token)", Run: func(i int, r *core.Rec) {
+				{Name: "decorations", N: len(tr.small), Note: "trees with <=2 operator nodes x 3 leaf assignments x 12 decorations (white space, comments, comments whose text holds brackets, quotes and comment openers) x (all gaps | each single gap | before the first / after the last token) + 4 comments that end with the source", Run: func(i int, r *core.Rec) {
 					t := tr.small[i]
 					// three leaf assignments: starting at the literal 1, at the element name, at the resource type name
 					for _, off := range []int{0, 4, 6} {
@@ -563,7 +567,13 @@ func init() {
 								// the same decoration before the first and after the last token
 								if d.s != "" {
 									plain := c11Join(toks, func(int) string { return " " })
-									for _, edge := range []struct{ name, src string }{{"leading", d.s + plain}, {"trailing", plain + d.s}, {"both", d.s + plain + d.s}} {
+									edges := []struct{ name, src string }{{"leading", d.s + plain}, {"trailing", plain + d.s}, {"both", d.s + plain + d.s}}
+									if d.name == "space" { // once per tree: the comments that end with the source
+										for _, e := range eofDecorations {
+											edges = append(edges, struct{ name, src string }{e.name, plain + e.s}, struct{ name, src string }{e.name + "-after-newline", plain + "\n" + e.s})
+										}
+									}
+									for _, edge := range edges {
 										o := c11Compile(r, edge.src, false)
 										r.State("decoration|" + d.name + "|edge-" + edge.name)
 										r.Nontrivial(edge.src, fmt.Sprint(o.ok))
